@@ -253,7 +253,7 @@ func c18Run(c c18Case, st *fw.Stats) []fw.Viol {
 		}
 		// (3) a middleware reads request data through one of the context's helpers before the handler binds: the bind
 		// still reads the request's own body (query string for body-less methods), all of it
-		helpers := []string{"none", "FormParams()", "FormParams([name])", "FormParams([name other])", "FormParams([missing])", "Post(name)", "PostParams(other)", "Query(name)", "QueryValues().Del(name)", "ParseMultipartForm()", "FormFile(nofile)", "FormParams([name]) twice"}
+		helpers := []string{"none", "FormParams()", "FormParams([name])", "FormParams([name other])", "FormParams([missing])", "Post(name)", "PostParams(other)", "Query(name)", "QueryValues().Del(name)", "ParseMultipartForm()", "FormFile(nofile)", "FormParams([name]) twice", "Copy() kept", "Copy().Bind() first"}
 		for _, hp := range helpers {
 			for _, f := range []string{"form", "multipart", "query"} {
 				for _, m := range []string{"POST", "PUT", "PATCH", "GET", "DELETE"} {
@@ -274,8 +274,10 @@ func c18Run(c c18Case, st *fw.Stats) []fw.Viol {
 					default:
 						req = httptest.NewRequest(m, "/x?name=Q&other=q1", nil)
 					}
-					var obj c18Helper
-					var err error
+					var obj, copyObj c18Helper
+					var err, copyErr error
+					var keptCopy *rux.Context
+					copyBound := false
 					r := rux.New()
 					r.Use(func(ctx *rux.Context) {
 						switch hp {
@@ -302,6 +304,12 @@ func c18Run(c c18Case, st *fw.Stats) []fw.Viol {
 							_ = ctx.ParseMultipartForm()
 						case "FormFile(nofile)":
 							_, _ = ctx.FormFile("nofile")
+						case "Copy() kept":
+							keptCopy = ctx.Copy()
+						case "Copy().Bind() first":
+							keptCopy = ctx.Copy()
+							copyErr = keptCopy.Bind(&copyObj)
+							copyBound = true
 						}
 					})
 					r.Any("/x", func(ctx *rux.Context) { err = ctx.Bind(&obj) })
@@ -311,6 +319,8 @@ func c18Run(c c18Case, st *fw.Stats) []fw.Viol {
 					}
 					if pv := try(func() { r.ServeHTTP(httptest.NewRecorder(), req) }); pv != nil {
 						add("history:panic", fmt.Sprintf("%s %s request, middleware calls Context.%s, handler binds: panicked: %v", m, f, hp, pv))
+					} else if copyBound && (copyErr != nil || copyObj.Name != wantName || copyObj.Other != wantOther) {
+						add("history:helper-before-bind", fmt.Sprintf("%s request (%s data name=%s other=%s): a middleware takes Context.Copy() and binds on the copy: Name=%q Other=%q err=%v; the request carries Name=%q Other=%q", m, f, wantName, wantOther, copyObj.Name, copyObj.Other, copyErr, wantName, wantOther))
 					} else if err != nil || obj.Name != wantName || obj.Other != wantOther {
 						add("history:helper-before-bind", fmt.Sprintf("%s request (%s data name=%s other=%s; query string name=Q other=q1): a middleware calls Context.%s, then the handler's Bind gives Name=%q Other=%q err=%v; the request carries Name=%q Other=%q", m, f, wantName, wantOther, hp, obj.Name, obj.Other, err, wantName, wantOther))
 					}
@@ -597,7 +607,7 @@ func c18Run(c c18Case, st *fw.Stats) []fw.Viol {
 			}
 		}
 		// lists of strings, also one-element lists whose element holds the usual list separators
-		for _, labels := range [][]string{nil, {"a"}, {"a,b"}, {"a", "b"}, {"a,b", "c"}, {","}, {"a;b"}, {"a b"}, {"a|b"}, {"[a]"}, {"a", "b,c", "d"}, {"1,2,3"}} {
+		for _, labels := range [][]string{nil, {"a"}, {"a,b"}, {"a", "b"}, {"a,b", "c"}, {","}, {"a;b"}, {"a b"}, {"a|b"}, {"[a]"}, {"a", "b,c", "d"}, {"1,2,3"}, {""}, {"", ""}, {"", "a"}} {
 			for _, note := range []string{"", "x,y"} {
 				st.Evals++
 				st.Nontrivial++
@@ -872,7 +882,7 @@ var c18Spec = fw.Spec[c18Case]{
 	ID:      "C18",
 	Level:   "model_checking",
 	Workers: 1,
-	Rule: "complete enumeration: decision table 19 method tokens (the nine standard ones, extension methods, other spellings, empty) x 22 Content-Type strings (the unsupported ones include sub-types spelled like registered binder names) x query present/absent, every source carrying a different value; requests with a history (form parsed before the method became body-less / the parsed form edited; a body reader that failed half way before the next binds; a middleware calling one of 11 data-reading context helpers - FormParams with and without except lists, Post, PostParams, Query, QueryValues, ParseMultipartForm, FormFile - before the handler binds, x urlencoded / multipart / query x 5 methods); all sequences of <=3 (thorough 4) binds over 6 sources of a struct whose field has a different name in every source's tag; round trip of all values of a struct over int{0,1,-7,2^31} x 9 strings (unicode, separators, markup, quotes) x bool x 4 int slices, 10 equivalent spellings of one XML document and 6 of one JSON document (declaration, comments and processing instructions before and after the root, white space, CDATA, character references, element / key order, escapes, unknown members), and of 12 string lists (one-element lists holding , ; | space brackets included) x 2 notes, through query / urlencoded / multipart / JSON / XML; all byte strings of length <=4 (thorough 5) over 14 bytes as body per format (must not panic; malformed JSON/XML must yield an error); validator on/off reached through every history of <=3 switch operations {ResetValidator, DisableValidator, assign a custom validator, assign nil} x values on both sides of each rule and a completely empty value set; " +
+	Rule: "complete enumeration: decision table 19 method tokens (the nine standard ones, extension methods, other spellings, empty) x 22 Content-Type strings (the unsupported ones include sub-types spelled like registered binder names) x query present/absent, every source carrying a different value; requests with a history (form parsed before the method became body-less / the parsed form edited; a body reader that failed half way before the next binds; a middleware calling one of 13 context helpers - FormParams with and without except lists, Post, PostParams, Query, QueryValues, ParseMultipartForm, FormFile, Copy (kept / bound first) - before the handler binds, x urlencoded / multipart / query x 5 methods); all sequences of <=3 (thorough 4) binds over 6 sources of a struct whose field has a different name in every source's tag; round trip of all values of a struct over int{0,1,-7,2^31} x 9 strings (unicode, separators, markup, quotes) x bool x 4 int slices, 10 equivalent spellings of one XML document and 6 of one JSON document (declaration, comments and processing instructions before and after the root, white space, CDATA, character references, element / key order, escapes, unknown members), and of 15 string lists (one-element lists holding , ; | space brackets included) x 2 notes, through query / urlencoded / multipart / JSON / XML; all byte strings of length <=4 (thorough 5) over 14 bytes as body per format (must not panic; malformed JSON/XML must yield an error); validator on/off reached through every history of <=3 switch operations {ResetValidator, DisableValidator, assign a custom validator, assign nil} x values on both sides of each rule and a completely empty value set; " +
 		"non-trivial = a table row / a round-tripped value / a malformed body",
 	Assume: []string{"media types that merely contain a canonical subtype as a substring (application/jsonp) are outside the alphabet", "runs single-threaded: the validator switch is package-global", "encoding/json and encoding/xml decide what 'malformed' means"},
 	Bounds: func(tier string) map[string]any {
